@@ -48,6 +48,18 @@ def check_copies(ctx, u, case, sig):
     copies.append(("copy", guarded(copy.copy, u)))
     copies.append(("deepcopy", guarded(copy.deepcopy, u)))
     copies.append(("slots-twin", guarded(twin_from_slots, sl)))
+
+    def old_style():
+        # the "default style" pickle state of old yarl versions: (None, {"_val": SplitResult, "_strict": False})
+        from urllib.parse import SplitResult
+        from yarl import URL
+
+        t = URL.__new__(URL)
+        t.__setstate__((None, {"_val": SplitResult(*sl), "_strict": False}))
+        return t
+
+    copies.append(("old-style-state", guarded(old_style)))
+    copies.append(("URL(SplitResult)", guarded(lambda: type(u)(u.__getstate__()[0], encoded=True))))
     # observe copies BEFORE the original, so the original's lazily filled cache cannot influence them
     observed = []
     for name, c in copies:
